@@ -16,3 +16,6 @@ func VerifC10BlockLayout(count uint64, t b6.FeatureType) (bucketBits int, tagBit
 	m := encoding.NewUint64MapBuilder(bucketBitsForCount(count), tagBits[t])
 	return m.Layout.BucketBits, m.Layout.TagBits
 }
+
+// VerifC10BucketBitsForCount exposes bucketBitsForCount (no allocation), for exhaustive comparison.
+func VerifC10BucketBitsForCount(count uint64) int { return bucketBitsForCount(count) }
